@@ -98,11 +98,65 @@ def scenarios(rng, tier, runner):
             meta["variant"] = (int(f[0]) & 64, v % 7, "msg" if meta_len else "s4")
             meta["msglen"] = meta_len
             out.append(Scenario("dec-%s-%d" % (s.name, v % 1000), ls, meta))
+    return out + bitmap_scenarios(rng, tier)
+
+def bitmap_scenarios(rng, tier):
+    """data present bit-maps with marker operators (outside the Lean model): messages written from FM 94 by
+    gen/bitmap.py, decoded by the implementation alone, judged by the values computed there"""
+    from gen import bitmap
+    out = []
+    B, D = P["cur"]
+    for i in range(60 if tier == "quick" else 1500):
+        msg, t, expect, info = bitmap.build(rng, B)
+        ls = ["T.use cur", "ds.decodemsg " + msg.hex()]
+        for k, ex in enumerate(expect):
+            ls += ["dd.vals %d" % k, bitmap.expect_line(ex)]
+        out.append(Scenario("bitmap-%d" % i, ls, {"nomodel": True, "family": "bitmap", "lastbit": info["bitmap"][-1], "tables": "cur"}))
     return out
 
-compare = c01.compare
+def check_expect(scn, outs):
+    """`expect` lines (an op neither side knows: both answer bad-op) carry what the `dd.vals` line before them must
+    show: `-` no value, `m` missing, `p/q` the exact rational the raw pattern stands for"""
+    from fractions import Fraction
+    for i, l in enumerate(scn.lines):
+        if not l.startswith("expect ") or i == 0 or i >= len(outs):
+            continue
+        want = l.split()[1:]
+        got = outs[i - 1].split()
+        dec = next((outs[j] for j in range(i - 1, -1, -1) if scn.lines[j].startswith("ds.decode")), "")
+        f = dec.split()
+        if not f:
+            return None          # a shrunk scenario without its decode
+        if f[:1] == ["read"]: f = f[2:]
+        if f[:1] != ["ok"]:
+            return "refused: a well-formed message with a data present bit-map: %s" % dec
+        if f[1] != "0":
+            return "invalid: a well-formed message with a data present bit-map was decoded as invalid"
+        if len(got) != len(want):
+            return "%s: %d values decoded where the message holds %d" % (scn.lines[i - 1], len(got), len(want))
+        for j, (w, g) in enumerate(zip(want, got)):
+            pv, _ = c01.parse_val(g)
+            if w == "-":
+                ok = pv == ("none",)
+            elif w == "m":
+                ok = pv == ("miss",)
+            else:
+                p, q = w.split("/"); e = Fraction(int(p), int(q))
+                ok = pv[0] == "num" and (pv[1] == e or pv[1] == Fraction(float(e)))
+            if not ok:
+                return "%s: node %d decoded as %s where the message holds %s" % (scn.lines[i - 1], j, g, w)
+    return None
+
+def compare(scn, lscn, cr, lr):
+    if scn.meta.get("nomodel") or any(l.startswith("expect ") for l in scn.lines):
+        # judged by the values written next to it (`expect`), not by the model: bit-map operators are outside it
+        from vlib.engine import compare as cmp0
+        return cmp0(scn, cr, (list(cr[0]), None), None)
+    return c01.compare(scn, lscn, cr, lr)
 
 def oracle(scn, outs):
+    if any(l.startswith("expect ") for l in scn.lines):
+        return check_expect(scn, outs)
     if "specfail" in scn.meta:
         return "reference encoder/decoder disagree with each other (%s): specification bug" % scn.meta["specfail"]
     built_l, built_v = scn.meta.get("built_l"), scn.meta.get("built_v")
